@@ -42,6 +42,24 @@ def check(run, tier):
     run.mc("MC_Geom", "MC_Geom" if tier == "quick" else "MC_Geom_thorough")
     run.tlaps("PosInjective")  # unbounded: injectivity and range of the numbering for every number of rows / columns
     run_calls(run, geometries(tier, rng("C08")), batch=60 if tier == "quick" else 40)
+    # one worklist, many short-lived labware of changing geometry (nothing is remembered under the identity of a dead object)
+    rl = rng("C08-life")
+    life = []
+    for dev in ("evo", "fluent"):
+        for _ in range(6 if tier == "quick" else 60):
+            geoms = []
+            for _ in range(12):
+                if rl.random() < 0.4:
+                    V, C = rl.randint(1, 8), rl.randint(1, 4)
+                    geoms.append({"rows": 1, "cols": C, "vrows": V, "well": [rl.randrange(V), rl.randrange(C)]})
+                else:
+                    R, C = rl.randint(1, 16), rl.randint(1, 24)
+                    geoms.append({"rows": R, "cols": C, "vrows": 0, "well": [rl.randrange(R), rl.randrange(C)]})
+            # the same well id on consecutive labware of different geometry
+            geoms += [{"rows": 8, "cols": 3, "vrows": 0, "well": [1, 1]}, {"rows": 4, "cols": 6, "vrows": 0, "well": [1, 1]}, {"rows": 1, "cols": 2, "vrows": 4, "well": [1, 1]},
+                      {"rows": 16, "cols": 24, "vrows": 0, "well": [1, 1]}]
+            life.append({"x": "poslife", "dev": dev, "geoms": geoms})
+    run_calls(run, life)
     # well ids that do not exist: every record emitting operation must raise without emitting a record
     run_programs(run, targeted.badwell_programs("evo") + targeted.badwell_programs("fluent"))
     run.extra["exhaustive"] = tier == "thorough"
